@@ -7,6 +7,7 @@ Vocabulary: `Spec.sgr` (Spec/Sgr.lean) is the meaning of one `CSI … m` on a te
 sequences `l` one after the other from pen `t`.
 -/
 import VaxisModel.Lemmas.Sgr
+import VaxisModel.Lemmas.SgrAgree
 
 namespace VaxisModel.Props.C18
 open VaxisModel VaxisModel.Model.Sgr VaxisModel.Gen VaxisModel.Spec VaxisModel.Lemmas.Sgr
@@ -289,12 +290,13 @@ theorem encode_formats_mutability :
       SgrCases.encodeCellsBgRGBMutable && SgrCases.renderFgIndexMutable && SgrCases.renderFgRGBMutable &&
       SgrCases.renderBgIndexMutable && SgrCases.renderBgRGBMutable) = true := by decide
 
-/-- The two `[][]int` consumers handle the same labels, arities and `4:n` sub-labels (as sets; since the
-    F35 fix). -/
+/-- The two `[][]int` consumers handle the same labels, arities and `4:n` sub-labels — as sets: neither the order of the
+    `case` clauses nor the order of the `case <len>` clauses inside a `switch len(params[i])` matters (since the F35 fix; round 4:
+    the inner order no longer matters either — a reordered clause was reported as a broken obligation). -/
 theorem int_consumers_same_cases :
-    (SgrCases.parseSGRLabels.all SgrCases.emuSgrLabels.contains && SgrCases.emuSgrLabels.all SgrCases.parseSGRLabels.contains &&
-     SgrCases.parseSGRArities.all SgrCases.emuSgrArities.contains && SgrCases.emuSgrArities.all SgrCases.parseSGRArities.contains &&
-     SgrCases.parseSGRUlSubs.all SgrCases.emuSgrUlSubs.contains && SgrCases.emuSgrUlSubs.all SgrCases.parseSGRUlSubs.contains) = true := by
+    VaxisModel.Lemmas.SgrAgree.sameSet SgrCases.parseSGRLabels SgrCases.emuSgrLabels = true ∧
+    VaxisModel.Lemmas.SgrAgree.sameSet SgrCases.parseSGRUlSubs SgrCases.emuSgrUlSubs = true ∧
+    VaxisModel.Lemmas.SgrAgree.aritiesSameB SgrCases.parseSGRArities SgrCases.emuSgrArities = true := by
   decide
 
 end VaxisModel.Props.C18
